@@ -18,8 +18,9 @@ MANIFEST = {
              "code's step sequence between the verif yield points of lru.go (Lock + index access, list/size update with "
              "the evict loop + index update, Unlock; every error exit; a value whose Size() starts failing), for 2 threads "
              "x 2 operations and 3 x 1 (quick), additionally 2 x 3, 3 x 2 and 3 x 3 (thorough) over 2-3 keys, value sizes 1-2, "
-             "capacity 2-3, and all sequential histories of <= 4 (quick) / <= 6 (thorough) operations incl. 3-key "
-             "configurations in which eviction has a choice of victim. EVERY transition is replayed on the real lru.Cache "
+             "capacity 2-4, and all sequential histories of <= 4 (quick) / <= 6 (thorough) operations incl. 3-key "
+             "configurations in which eviction has a choice of victim, a Put evicting 2-3 entries with the failing value "
+             "anywhere in eviction order, and instances scaled so that the capacity is math.MaxUint64 / 2^64-2. EVERY transition is replayed on the real lru.Cache "
              "by a scheduler that releases exactly one real goroutine per model step at the hooks; after each step "
              "Len/Size/Range/RangeFILO and ll/index/size are projected (zero drift on the unchanged tree). LRUProps.tla "
              "(capacity, size/len exactness, index and list one map, linearizability of every returned result against an "
@@ -145,6 +146,9 @@ ASSUMPTIONS = [
     "a call is 'blocked for ever' when the goroutine dump shows it parked in Lock/RLock of the cache mutex and no "
     "goroutine of the run is inside a locked section",
     "free-running histories: call/return events are ordered by a logging mutex (intervals are only widened)",
+    "sizes near 2^64 are reached by multiplying every size and the capacity by one factor (Scale, e.g. capacity = "
+    "math.MaxUint64); the abstract LRU works in units, a reported size that is not a multiple of the factor is "
+    "NOTMULT; sizes that are not multiples of a common factor are not enumerated",
 ]
 
 BATCH = 40000        # replayed paths per driver run
